@@ -34,7 +34,7 @@ func (t *rotatingJWKS) RoundTrip(r *http.Request) (*http.Response, error) {
 	t.downloads++
 	set := jose.JSONWebKeySet{Keys: []jose.JSONWebKey{}}
 	for _, n := range t.published {
-		set.Keys = append(set.Keys, jose.JSONWebKey{Key: rotKey(n).Pub, KeyID: n, Use: "sig", Algorithm: "ES256"})
+		set.Keys = append(set.Keys, jose.JSONWebKey{Key: rotKey(n).Pub, KeyID: rotKid(n), Use: "sig", Algorithm: "ES256"})
 	}
 	t.mu.Unlock()
 	body, _ := json.Marshal(set)
@@ -52,12 +52,20 @@ func (s rotatingStorage) KeySet(context.Context) ([]op.Key, error) {
 	s.jwks.downloads++
 	keys := []op.Key{}
 	for _, n := range s.jwks.published {
-		keys = append(keys, opKey{id: n, use: "sig", alg: jose.ES256, key: rotKey(n).Pub})
+		keys = append(keys, opKey{id: rotKid(n), use: "sig", alg: jose.ES256, key: rotKey(n).Pub})
 	}
 	return keys, nil
 }
 
 func rotKey(name string) *modelstore.SignKey { return modelstore.GenKey("c02-rot-"+name, jose.ES256) }
+
+// rotKid: key N is published without a key id
+func rotKid(name string) string {
+	if name == "N" {
+		return ""
+	}
+	return name
+}
 
 var (
 	rotTokMu sync.Mutex
@@ -131,6 +139,9 @@ func KeyRotationCase(c *Case) M {
 		switch entry {
 		case "rp":
 			ks := rp.NewRemoteKeySet(&http.Client{Transport: jw}, sigIssuer+"/keys")
+			if B(c.C, "skip") {
+				ks = rp.NewRemoteKeySet(&http.Client{Transport: jw}, sigIssuer+"/keys", rp.SkipRemoteCheck())
+			}
 			ksRef = ks
 			v := rp.NewIDTokenVerifier(sigIssuer, "cid", ks, rp.WithNonce(nil))
 			verify = func(tok string) error {
@@ -157,7 +168,7 @@ func KeyRotationCase(c *Case) M {
 			by, kid := S(s, "by"), ""
 			switch S(s, "kid") {
 			case "own":
-				kid = by
+				kid = rotKid(by)
 			case "other":
 				kid = "A"
 				if by == "A" {
